@@ -307,6 +307,10 @@ class PolicyGen:
                     conds = [self.cond() for _j in range(nc)]
                     if rng.random() < 0.3 and nc >= 2:
                         conds[1] = (conds[0][0], conds[1][1], conds[1][2])    # same argument twice
+                    if rng.random() < 0.2 and nc >= 2:
+                        # the very same condition twice in one list (first and last, or anywhere)
+                        j = rng.randrange(nc - 1)
+                        conds[rng.choice([nc - 1, nc - 1, rng.randrange(j + 1, nc)])] = conds[j]
                     nwc.append(dict(name=nm, conds=conds))
                 if nwc and rng.random() < 0.35:
                     # another alternative for a syscall that has one already, RELATED to it: a sub-list, a longer list, the
